@@ -553,6 +553,29 @@ fn oracle(s: &Src, out: &Outcome, line: &str, ctx: &mut Ctx) {
         }
     }
     ctx.count("truth-table-equivalent");
+    // coverage of the interesting outcomes
+    ctx.count(match ng {
+        0 => "cover:new-gates=0",
+        1 => "cover:new-gates=1",
+        2..=4 => "cover:new-gates=2-4",
+        _ => "cover:new-gates>=5",
+    });
+    let mut images: Vec<usize> = r.post.iter().filter_map(|&g| if let L::Gate(_, k) = map[g] { Some(k) } else { None }).collect();
+    let n_img = images.len();
+    images.sort();
+    images.dedup();
+    if images.len() < n_img {
+        ctx.count("cover:two-old-gates-share-one-new-gate (hashing or forwarding)");
+    }
+    if r.post.iter().any(|&g| matches!(map[g], L::F | L::T) && !s.gates[g].1.iter().all(|l| matches!(l, L::F | L::T))) {
+        ctx.count("cover:non-constant gate folded to a constant");
+    }
+    if r.post.iter().any(|&g| matches!(map[g], L::In(..))) {
+        ctx.count("cover:gate forwarded to an input");
+    }
+    if gates.iter().any(|(k, _)| *k == K::Xor) && map.iter().any(|l| matches!(l, L::Gate(true, _))) {
+        ctx.count("cover:xor with negated output");
+    }
     if ng == 0 { ctx.count("result:no-gates"); }
     if ng < r.post.len() { ctx.count("result:fewer-gates-than-reachable"); }
 }
@@ -694,9 +717,9 @@ impl Emit<'_> {
     }
 }
 
-fn random_lit(rng: &mut Rng, n: usize, avail_gates: &[usize], g_total: usize, wild: bool) -> L {
+fn random_lit(rng: &mut Rng, n: usize, avail_gates: &[usize], g_total: usize, wild: bool, p_const: u64) -> L {
     let r = rng.below(100);
-    if r < 8 {
+    if r < p_const {
         if rng.chance(1, 2) { L::F } else { L::T }
     } else if r < 50 || avail_gates.is_empty() {
         if wild && rng.chance(1, 6) {
@@ -718,7 +741,8 @@ fn random_lit(rng: &mut Rng, n: usize, avail_gates: &[usize], g_total: usize, wi
 }
 
 /// random circuit biased toward duplicates, complements, constants and shared sub-terms
-fn random_circuit(rng: &mut Rng, max_n: usize, max_g: usize, max_fan: usize, cyc: bool, wild: bool) -> Src {
+fn random_circuit(rng: &mut Rng, max_n: usize, max_g: usize, max_fan: usize, cyc: bool, wild: bool, degenerate: bool) -> Src {
+    let (p_const, dup_den) = if degenerate { (8, 5) } else { (1, 25) };
     let n = rng.range(0, max_n as u64) as usize;
     let g = rng.range(1, max_g as u64) as usize;
     // random topological rank: gate a may use gate b iff rank[b] < rank[a]
@@ -743,10 +767,10 @@ fn random_circuit(rng: &mut Rng, max_n: usize, max_g: usize, max_fan: usize, cyc
             }
         }
         let k = *rng.pick(&[K::And, K::Or, K::Xor]);
-        let fan = if rng.chance(1, 12) { rng.below(2) as usize } else { rng.range(2, max_fan as u64) as usize };
+        let fan = if rng.chance(1, if degenerate { 12 } else { 60 }) { rng.below(2) as usize } else { rng.range(2, max_fan as u64) as usize };
         let mut ins: Vec<L> = Vec::new();
         for _ in 0..fan {
-            if !ins.is_empty() && rng.chance(1, 5) {
+            if !ins.is_empty() && rng.chance(1, dup_den) {
                 // duplicate or complement of an earlier input
                 let d = *rng.pick(&ins);
                 let d = if rng.chance(1, 2) {
@@ -762,7 +786,7 @@ fn random_circuit(rng: &mut Rng, max_n: usize, max_g: usize, max_fan: usize, cyc
                 };
                 ins.push(d);
             } else {
-                ins.push(random_lit(rng, n, &avail, g, wild));
+                ins.push(random_lit(rng, n, &avail, g, wild, p_const));
             }
         }
         gates.push((k, ins));
@@ -774,7 +798,7 @@ fn random_circuit(rng: &mut Rng, max_n: usize, max_g: usize, max_fan: usize, cyc
     roots.push(L::Gate(rng.chance(1, 2), top));
     for _ in 1..nroots {
         let all: Vec<usize> = (0..g).collect();
-        roots.push(random_lit(rng, n, &all, g, false));
+        roots.push(random_lit(rng, n, &all, g, false, p_const));
     }
     Src { n, gates, roots }
 }
@@ -891,7 +915,8 @@ fn generate(cfg: &GenCfg, rng: &mut Rng, w: &mut dyn Write) {
     {
         let want = if thorough { 120_000 * scale } else { 8_000 * scale };
         for _ in 0..want {
-            let s = random_circuit(rng, 8, 20, 6, false, false);
+            let degenerate = rng.chance(1, 2);
+            let s = random_circuit(rng, 8, 20, 6, false, false, degenerate);
             e.line(&s);
         }
     }
@@ -901,7 +926,7 @@ fn generate(cfg: &GenCfg, rng: &mut Rng, w: &mut dyn Write) {
         let want = if thorough { 40_000 * scale } else { 3_000 * scale };
         for _ in 0..want {
             let cyc = rng.chance(1, 2);
-            let s = random_circuit(rng, 6, 12, 5, cyc, true);
+            let s = random_circuit(rng, 6, 12, 5, cyc, true, true);
             e.line(&s);
         }
     }
